@@ -4,7 +4,7 @@
    (binding G): after every call the return value and the deliveries must equal ret / dlv of the target state. *)
 EXTENDS Ports, TLC
 VARIABLES s, ret, dlv, n      \* n: number of messages sent so far (message = its number: all distinct)
-CONSTANT Kind, MaxL, MaxMsgs
+CONSTANT Kind, MaxL, MaxMsgs, WithOpts
 vars == <<s, ret, dlv, n>>
 Init == s = P0 /\ ret = "nil" /\ dlv = <<>> /\ n = 0
 Do(call) == /\ Enabled(Kind, s, call)
@@ -13,12 +13,18 @@ Call(fn) == /\ fn \in {"OpenIn", "CloseIn", "OpenOut", "CloseOut", "Listen", "St
             /\ (fn = "Listen" => s.lastL < MaxL)
             /\ Do([fn |-> fn]) /\ n' = n
 Send == n < MaxMsgs /\ Do([fn |-> "Send", m |-> n + 1]) /\ n' = n + 1
+\* C14 on the lifecycle level: a listener with options; messages of the three filterable classes
+ListenOpts(o) == s.lastL < MaxL /\ Do([fn |-> "ListenOpts", opts |-> o]) /\ n' = n
+SendClass(m) == n < MaxMsgs /\ Do([fn |-> "Send", m |-> m]) /\ n' = n + 1
 Next == \/ \E fn \in {"OpenIn", "CloseIn", "OpenOut", "CloseOut", "Listen", "Stop"} : Call(fn)
         \/ Send
+        \/ (WithOpts /\ \E o \in [sysex : BOOLEAN, as : BOOLEAN, tc : BOOLEAN] : ListenOpts(o))
+        \/ (WithOpts /\ \E m \in {240, 248, 254} : SendClass(m))
 Spec == Init /\ [][Next]_vars
 
 OnlyWhileListening == dlv # <<>> => s.active # 0 /\ s.outOpen /\ dlv[1].l = s.active
 ClosedReported == (ret = "closed") => ~s.outOpen
+FilteredNeverDelivered == \A i \in 1..Len(dlv) : PassesOpts(s.opts, dlv[i].m)
 NeverTwoListeners == s.active \in {0, s.lastL}
 ActiveImpliesOpen == s.active # 0 => s.inOpen
 \* after stop the listener is never called again (action property)
